@@ -242,7 +242,9 @@ impl PathSliceList {
                 }
                 PathSlice::CombineObj(v) => {
                     let mut s = String::new();
-                    let mut prepend = String::new();
+                    // the update path tree of every spread operand is needed twice; it is passed
+                    // as an argument so that it is written (and evaluated) only once
+                    let mut spread_args: Vec<String> = vec![];
                     let mut need_object_assign = false;
                     let mut next_need_comma_sep = false;
                     for (key, sub_pas_str, sub_p) in v.iter() {
@@ -263,26 +265,37 @@ impl PathSliceList {
                                     next_need_comma_sep = true;
                                 }
                                 None => {
-                                    write!(prepend, "({})===true||", sub_s)?;
-                                    write!(s, "}},X({}),{{", sub_s)?;
+                                    write!(s, "}},X(_{}),{{", spread_args.len())?;
+                                    spread_args.push(sub_s);
                                     need_object_assign = true;
                                     next_need_comma_sep = false;
                                 }
                             }
                         }
                     }
-                    if is_template_data {
+                    let combined = if is_template_data {
                         if need_object_assign {
-                            write!(ret, "{}Object.assign({{{}}})", prepend, s)?;
+                            format!("Object.assign({{{}}})", s)
                         } else {
-                            write!(ret, "{}{{{}}}", prepend, s)?;
+                            format!("{{{}}}", s)
                         }
                     } else {
                         if need_object_assign {
-                            write!(ret, "{}Q.b(Object.assign({{{}}}))", prepend, s)?;
+                            format!("Q.b(Object.assign({{{}}}))", s)
                         } else {
-                            write!(ret, "{}Q.b({{{}}})", prepend, s)?;
+                            format!("Q.b({{{}}})", s)
                         }
+                    };
+                    if spread_args.is_empty() {
+                        write!(ret, "{}", combined)?;
+                    } else {
+                        let params: Vec<String> =
+                            (0..spread_args.len()).map(|i| format!("_{}", i)).collect();
+                        write!(ret, "(({})=>", params.join(","))?;
+                        for p in params.iter() {
+                            write!(ret, "{}===true||", p)?;
+                        }
+                        write!(ret, "{})({})", combined, spread_args.join(","))?;
                     }
                 }
                 PathSlice::CombineArr(v, spread) => {
